@@ -252,7 +252,7 @@ def work(item):
                 # query, edit the same object in place, query again (see common.warmup); the iteration orders
                 # handed to the literal model are read again afterwards
                 if C.warmup(G, lambda: call_impl(G, q, lab), layers=("circle", "directed", "bidirected"),
-                            salt=qi * 31 + len(g.get("D", [])) * 7 + len(g.get("C", [])) * 3 + g["n"]):
+                            salt=qi * 31 + len(g.get("D", [])) * 7 + len(g.get("C", [])) * 3 + g["n"], marks=True):
                     O, BO = orders(G, g, lab)
             got = call_impl(G, q, lab, fresh=(fam != "int" and qi % 2 == 1))
             lines.append(lean_line(g, q, O, BO, got.get("path") if got.get("found") else None))
